@@ -16,9 +16,21 @@
    significant bits), otherwise a p-bit neighbour within half a unit in the last place (ties to
    even), and a finite source never becomes infinite.  This is the weakest reading under which
    the property is satisfiable at all.  Integer and char targets are literal.
-   float -> float and text -> float conversions are covered by the correspondence run only
-   (libc strtof/strtod/strtold and the FPU are oracles), not by a theorem. *)
+   The same reading applies to float -> float: the model's rounding [fround] is proved to be
+   Flocq's [round radix2 (FLT_exp emin p) ZnearestE] (IEEE-754 round to nearest, ties to even,
+   gradual underflow) of the exact real value of the source, refused exactly when that rounded
+   value exceeds the largest finite target value, exact whenever the source is a number of the
+   target format (every widening), and the bit pattern written decodes to that number.
+   These theorems (marked REAL below) speak about real numbers, so they rest on the three
+   axioms of Coq's standard library of classical reals (ClassicalDedekindReals.sig_forall_dec,
+   ClassicalDedekindReals.sig_not_dec, FunctionalExtensionality.functional_extensionality_dep),
+   shown by Print Assumptions and listed in props/c07.py; this development declares no axiom.
+   text -> float: libc strtof/strtod/strtold stay an oracle (end pointer, errno == ERANGE,
+   class of the value); the library's own logic around the oracle is proved. *)
+From Coq Require Import Reals.
+From Flocq Require Import Core.
 From MptV Require Import Base.Mem C07.ConvModel C07.ConvSpec C07.ConvProofs C07.ConvTextProofs C07.ConvFloatProofs.
+From MptV Require Import C07.ConvFloat C07.ConvRound C07.ConvFlocq C07.ConvBits C07.ConvFloatThm C07.ConvIntFloat C07.ConvTextFloat.
 Local Open Scope Z_scope.
 
 (* ---- integer -> integer / char / long, all 8 source types x all targets, all values:
@@ -110,6 +122,225 @@ Theorem C07_int_float_stays_finite :
   forall p v, 0 < p -> - 2 ^ 63 <= v < 2 ^ 64 -> Z.abs (round_int p v) <= 2 ^ 64.
 Proof. exact round_int_finite. Qed.
 
+
+(* ======================================================================================
+   FLOATING SOURCES (mpt_data_convert_float32 / float64 / exflt) AND FLOATING TARGETS.
+   [fdecode c bits]: the number a bit pattern of C type c denotes ([FFin neg m e] =
+   (-1)^neg * m * 2^e, [FInf neg], [FNaN]); [fround c]: the model of the FPU's conversion to
+   type c; [fencode c]: the bit pattern ([None] = NaN); [fconv src bits t hd]: what a caller of
+   mpt_data_convert_<src>(&value, t, hd ? dest : 0) observes (ConvFloat.v transcribes
+   data_convert_float.c after its fix commits).
+   Formats: f_elsb / fprec / f_emax = -149/24/127 (float), -1074/53/1023 (double),
+   -16445/64/16383 (x87 long double).  [fmaxR c] = (2^p - 1) * 2^(emax - p + 1) = FLT_MAX,
+   DBL_MAX, LDBL_MAX.  [dyR neg m e] = F2R (Float radix2 (cond_Zopp neg m) e), the real value.
+   [rne_to c x] = round radix2 (FLT_exp (f_elsb c) (fprec c)) ZnearestE x.
+   ====================================================================================== *)
+
+(* ---- REAL. the model's rounding is IEEE round-to-nearest-even of the exact value; it yields an
+   infinity exactly when the rounded magnitude exceeds the largest finite value *)
+Theorem C07_float_round_is_IEEE_nearest_even :
+  forall c neg m e, 0 <= m ->
+    let x := F2R (Float radix2 (cond_Zopp neg m) e) in
+    let y := round radix2 (FLT_exp (f_elsb c) (fprec c)) ZnearestE x in
+    ((Rabs y <= fmaxR c)%R ->
+       exists m' e', fround c (FFin neg m e) = FFin neg m' e' /\ 0 <= m' /\
+                     F2R (Float radix2 (cond_Zopp neg m') e') = y) /\
+    ((fmaxR c < Rabs y)%R -> fround c (FFin neg m e) = FInf neg).
+Proof. exact fround_is_rne. Qed.
+
+(* ---- (no reals, closed under the global context) the same fact stated on integers only.
+   [fround] is, by definition: zero for zero; otherwise the pair (rsig, rexp), replaced by the
+   infinity of the same sign when its binary exponent exceeds emax ... *)
+Theorem C07_float_round_unfolded :
+  forall c neg m e,
+    fround c (FFin neg m e) =
+      if m =? 0 then FFin neg 0 0
+      else if rsig c m e =? 0 then FFin neg 0 0
+      else if f_emax c <? Z.log2 (rsig c m e) + rexp c m e then FInf neg
+      else FFin neg (rsig c m e) (rexp c m e).
+Proof. exact fround_unfold. Qed.
+
+(* ... and (rsig, rexp) is round-to-nearest-even of m * 2^e onto the format: it is a number of
+   the format (at most p bits or 2^p, exponent >= the subnormal exponent, p bits above it); no
+   number n * 2^f of the format is closer; if a different one is equally close the chosen
+   significand is even.  [dscale m e g] = m * 2^(e - g), [ddist] = |difference| in those units,
+   for any unit exponent g not above the exponents involved. *)
+Theorem C07_float_round_nearest_even_Z :
+  forall c m e, 0 < m ->
+    let m' := rsig c m e in let e' := rexp c m e in
+    (0 <= m' <= 2 ^ fprec c /\ f_elsb c <= e' /\ (f_elsb c < e' -> 2 ^ (fprec c - 1) <= m')) /\
+    (forall n f g, 0 <= n <= 2 ^ fprec c -> f_elsb c <= f -> g <= e -> g <= e' -> g <= f ->
+       ddist m' e' m e g <= ddist n f m e g) /\
+    (forall n f g, 0 <= n <= 2 ^ fprec c -> f_elsb c <= f -> g <= e -> g <= e' -> g <= f ->
+       ddist n f m e g = ddist m' e' m e g -> dscale n f g <> dscale m' e' g -> Z.even m' = true).
+Proof. exact rsig_nearest_even. Qed.
+
+(* ---- REAL. float -> float, all 3 x 3 pairs, every bit pattern: a finite source is REFUSED
+   (BadValue) when its correctly rounded value exceeds the largest finite target value and
+   otherwise ACCEPTED with a finite result equal to the correctly rounded value; infinities
+   and NaN are handed on. *)
+Theorem C07_float_float_rounded_or_refused :
+  forall src bits t tc hd, is_flt src = true -> tgt_cty t = Some tc -> is_flt tc = true ->
+    match fdecode src bits with
+    | FFin neg m e =>
+      let y := rne_to tc (dyR neg m e) in
+      ((fmaxR tc < Rabs y)%R -> fconv src bits t hd = FRefused BadValue) /\
+      ((Rabs y <= fmaxR tc)%R -> exists m' e', 0 <= m' /\ dyR neg m' e' = y /\
+          fconv src bits t hd = accepted_as tc hd (FFin neg m' e'))
+    | v => fconv src bits t hd = accepted_as tc hd v
+    end.
+Proof. exact fconv_rounds_or_refuses. Qed.
+
+(* ---- REAL. the bytes: whatever bit pattern an accepted conversion wrote, read back as the
+   target type it is the correctly rounded source (finite, within range), or the source's
+   infinity, or a NaN for a NaN; the target's size is reported *)
+Theorem C07_float_float_destination :
+  forall src bits t tc c' ob ret, is_flt src = true -> tgt_cty t = Some tc -> is_flt tc = true ->
+    fconv src bits t true = FOk c' ob ret ->
+    c' = tc /\ ret = cwidth tc /\
+    match fdecode src bits with
+    | FFin neg m e =>
+      let y := rne_to tc (dyR neg m e) in
+      (Rabs y <= fmaxR tc)%R /\
+      exists b m2 e2, ob = Some b /\ fdecode tc b = FFin neg m2 e2 /\ dyR neg m2 e2 = y
+    | FInf sg => exists b, ob = Some b /\ fdecode tc b = FInf sg
+    | FNaN => ob = None
+    end.
+Proof. exact fconv_destination. Qed.
+
+(* ---- REAL. exact values are preserved: a source that is a finite number of the target
+   format is accepted and keeps its value ... *)
+Theorem C07_float_float_exact_when_representable :
+  forall src bits t tc hd neg m e, is_flt src = true -> tgt_cty t = Some tc -> is_flt tc = true ->
+    fdecode src bits = FFin neg m e ->
+    (exists n f, 0 <= n < 2 ^ fprec tc /\ f_elsb tc <= f <= f_emax tc - fprec tc + 1 /\ dyR neg n f = dyR neg m e) ->
+    exists m' e', 0 <= m' /\ dyR neg m' e' = dyR neg m e /\
+      fconv src bits t hd = accepted_as tc hd (FFin neg m' e').
+Proof. exact fconv_exact_when_representable. Qed.
+
+(* ---- REAL. ... in particular every widening (float -> float/double/long double, double ->
+   double/long double, long double -> long double) is accepted and exact *)
+Theorem C07_float_widening_exact :
+  forall src bits t tc hd neg m e, is_flt src = true -> tgt_cty t = Some tc -> is_flt tc = true ->
+    fprec src <= fprec tc -> fdecode src bits = FFin neg m e ->
+    exists m' e', 0 <= m' /\ dyR neg m' e' = dyR neg m e /\
+      fconv src bits t hd = accepted_as tc hd (FFin neg m' e').
+Proof. exact fconv_widening_exact. Qed.
+
+(* ---- (no reals) encode/decode: every finite value the rounding can produce (at most p bits or
+   exactly 2^p, exponent >= the subnormal exponent, below 2^(emax+1)) has a bit pattern, and
+   that pattern denotes the same number: m2 * 2^e2 = m * 2^e *)
+Theorem C07_float_bits_roundtrip :
+  forall c neg m e, is_flt c = true ->
+    0 <= m <= 2 ^ fprec c -> f_elsb c <= e -> (0 < m -> Z.log2 m + e <= f_emax c) ->
+    exists b m2 e2, fencode c (FFin neg m e) = Some b /\ fdecode c b = FFin neg m2 e2 /\
+      0 <= m2 /\ same_dyadic m2 e2 m e.
+Proof. exact fdecode_fencode. Qed.
+
+(* ---- (no reals) float -> integer/char/long is not offered at all: always BadType, so there
+   is no truncation toward zero that could go out of range; and no input faults *)
+Theorem C07_float_int_never_offered :
+  forall src bits t tc hd, tgt_cty t = Some tc -> is_flt tc = false -> fconv src bits t hd = FRefused BadType.
+Proof. exact fconv_no_integer_target. Qed.
+
+Theorem C07_float_never_faults : forall src bits t hd, fconv src bits t hd <> FFault.
+Proof. exact fconv_never_faults. Qed.
+
+(* ---- (no reals) integer -> floating type through the converters and the dispatch layers:
+   always accepted with the target's size, and what the FPU converts is the source itself *)
+Theorem C07_int_float_always_accepted :
+  forall s v t tc, tgt_cty t = Some tc -> is_flt tc = true ->
+    conv s v t true = OFlt tc v (cwidth tc) /\ conv s v t false = OQuery (cwidth tc).
+Proof. exact conv_float_target. Qed.
+
+Theorem C07_int_float_source_is_converted :
+  forall s v t c w ret, conv s v t true = OFlt c w ret ->
+    w = v /\ tgt_cty t = Some c /\ is_flt c = true /\ ret = cwidth c.
+Proof. exact conv_flt_inv. Qed.
+
+Theorem C07_value_convert_float_source_is_converted :
+  forall sk v tk c w r, vconv sk v tk true = OFlt c w r ->
+    w = v /\ tgt_cty (tty_of_code tk) = Some c /\ is_flt c = true.
+Proof. exact vconv_flt_inv. Qed.
+
+Theorem C07_iterator_consume_float_source_is_converted :
+  forall sk v tk c w r, iconv sk v tk true = OFlt c w r ->
+    w = v /\ tgt_cty (tty_of_code tk) = Some c /\ is_flt c = true.
+Proof. exact iconv_flt_inv. Qed.
+
+(* ---- REAL. the integer -> float value IS IEEE round-to-nearest-even of the integer (this
+   subsumes exact-when-representable and within-half-an-ulp above), for every integer *)
+Theorem C07_int_float_is_IEEE_nearest_even :
+  forall c v, IZR (round_int (fprec c) v) = round radix2 (FLT_exp (f_elsb c) (fprec c)) ZnearestE (IZR v).
+Proof. exact round_int_is_rne. Qed.
+
+(* ---- REAL. and the bit pattern compared with the hardware's, read as the target type, is that
+   number: finite (no infinity, no NaN) for every source of at most 64 bits *)
+Theorem C07_int_float_destination :
+  forall c v, is_flt c = true -> - 2 ^ 63 <= v < 2 ^ 64 ->
+    exists neg m2 e2, fdecode c (flt_bits c (round_int (fprec c) v)) = FFin neg m2 e2 /\
+      dyR neg m2 e2 = rne_to c (IZR v).
+Proof. exact int_float_destination. Qed.
+
+(* ======================================================================================
+   NUMERIC TEXT -> FLOATING TYPE.  [flt_oracle] = what libc's strtof/strtod/strtold answered
+   (fo_end: characters parsed, fo_erange: errno == ERANGE, fo_cls: finite / +inf / -inf /
+   NaN); [fo_overflow o] = fo_erange o && (fo_cls o is +inf or -inf).  The value stored is
+   libc's ([StOrc], observed as [TOFlt n]).
+   ====================================================================================== *)
+
+(* complete case analysis of mpt_cfloat / mpt_cdouble / mpt_cldouble *)
+Theorem C07_text_float_cases :
+  forall hd s o,
+    (cstr s = [] /\ convert_float_text hd s o = TEmpty) \/
+    (cstr s <> [] /\ fo_overflow o = true /\ convert_float_text hd s o = TRefused BadValue) \/
+    (cstr s <> [] /\ fo_overflow o = false /\ fo_end o = O /\
+       convert_float_text hd s o = if all_space (cstr s) then TEmpty else TRefused BadType) \/
+    (cstr s <> [] /\ fo_overflow o = false /\ fo_end o <> O /\
+       convert_float_text hd s o = TDone (if hd then StOrc else StNone) (fo_end o)).
+Proof. exact convert_float_text_cases. Qed.
+
+(* accepted => exactly the characters libc parsed (at least one) are reported as consumed, the
+   destination holds libc's value, and libc did not flag an overflow *)
+Theorem C07_text_float_accepts :        (* mpt_convert_number, targets f d e *)
+  forall t s o n, flt_target_t t ->
+    tobserve (tgt_cty t) true (convert_number (Some s) t true o) = TOFlt n ->
+    n = fo_end o /\ n <> O /\ fo_overflow o = false.
+Proof. exact convert_number_float_accepts. Qed.
+
+Theorem C07_text_float_string_accepts : (* mpt_convert_string: k leading blanks skipped and added back *)
+  forall t s o n, flt_target_t t ->
+    tobserve (tgt_cty t) true (convert_string (Some s) t true o) = TOFlt n ->
+    let k := fst (skip_space (cstr s)) in
+    fo_overflow o = false /\ (fo_end o - k <> 0)%nat /\ n = (k + (fo_end o - k))%nat /\
+    ((k <= fo_end o)%nat -> n = fo_end o).
+Proof. exact convert_string_float_accepts. Qed.
+
+(* a finite numeral beyond the range (ERANGE and +HUGE_VAL or -HUGE_VAL: both signs) is refused,
+   with and without destination; BadValue is given for nothing else *)
+Theorem C07_text_float_overflow_refused :
+  forall t s hd o, flt_target_t t -> cstr s <> [] ->
+    fo_erange o = true -> fo_cls o = FcPosInf \/ fo_cls o = FcNegInf ->
+    convert_number (Some s) t hd o = TRefused BadValue.
+Proof. exact convert_number_float_overflow. Qed.
+
+Theorem C07_text_float_string_overflow_refused :
+  forall t s hd o, flt_target_t t -> snd (skip_space (cstr s)) <> [] ->
+    fo_erange o = true -> fo_cls o = FcPosInf \/ fo_cls o = FcNegInf ->
+    convert_string (Some s) t hd o = TRefused BadValue.
+Proof. exact convert_string_float_overflow. Qed.
+
+Theorem C07_text_float_badvalue_only_overflow :
+  forall t s hd o, flt_target_t t -> convert_number (Some s) t hd o = TRefused BadValue ->
+    fo_erange o = true /\ (fo_cls o = FcPosInf \/ fo_cls o = FcNegInf).
+Proof. exact convert_number_float_badvalue. Qed.
+
+(* without destination: the same answer, nothing stored *)
+Theorem C07_text_float_query_same :
+  forall t s o, flt_target_t t ->
+    convert_number (Some s) t false o = strip (convert_number (Some s) t true o).
+Proof. exact convert_number_float_query. Qed.
+
 (* ---- non-vacuity: the hypotheses are met by real conversions and the statements say something ---- *)
 Example C07_ex_accept : conv I32 300 Tq true = OInt 300 2.
 Proof. vm_compute. reflexivity. Qed.
@@ -141,11 +372,73 @@ Example C07_ex_text_refused :
   /\ convert_uint_text true 8 (Some [45;49]) 0 = TRefused BadValue
   /\ convert_uint_text true 8 (Some [45;49;56;52;52;54;55;52;52;48;55;51;55;48;57;53;53;49;54;49;53]) 0 = TRefused BadValue
   /\ convert_uint_text true 1 (Some [50;53;54]) 0 = TRefused BadValue
-  /\ convert_number (Some [57;50;50;51;51;55;50;48;51;54;56;53;52;55;55;53;56;48;56]) Tx true (mkOracle 0 false) = TRefused BadValue.
+  /\ convert_number (Some [57;50;50;51;51;55;50;48;51;54;56;53;52;55;55;53;56;48;56]) Tx true (mkOracle 0 false FcFinite) = TRefused BadValue.
+Proof. repeat split; vm_compute; reflexivity. Qed.
+(* ---- floating sources: what the definitions are, and real conversions ---- *)
+Example C07_ex_formats :
+  (forall c x, rne_to c x = round radix2 (FLT_exp (f_elsb c) (fprec c)) ZnearestE x) /\
+  FLT_exp (f_elsb CF32) (fprec CF32) = FLT_exp (-149) 24 /\
+  FLT_exp (f_elsb CF64) (fprec CF64) = FLT_exp (-1074) 53 /\
+  FLT_exp (f_elsb CF80) (fprec CF80) = FLT_exp (-16445) 64 /\
+  (forall neg m e, dyR neg m e = F2R (Float radix2 (cond_Zopp neg m) e)).
+Proof. repeat split; reflexivity. Qed.
+(* FLT_MAX = (2^24 - 1) * 2^104, DBL_MAX = (2^53 - 1) * 2^971 *)
+Example C07_ex_fmax : fmaxR CF32 = F2R (Float radix2 16777215 104) /\ fmaxR CF64 = F2R (Float radix2 9007199254740991 971)
+                   /\ 16777215 * 2 ^ 104 = 340282346638528859811704183484516925440.
+Proof. repeat split; reflexivity. Qed.
+(* double -> float.  0x47efffffe0000000 = FLT_MAX: accepted, 0x7f7fffff.  0x47efffffefffffff (just below the
+   midpoint to 2^128): rounds down to FLT_MAX, accepted.  0x47effffff0000000 (the midpoint: ties to even = 2^128)
+   and everything above: refused.  Infinity is handed on. *)
+Example C07_ex_narrow_overflow :
+  fconv CF64 0x47efffffe0000000 Tf true = FOk CF32 (Some 0x7f7fffff) 4 /\
+  fconv CF64 0x47efffffefffffff Tf true = FOk CF32 (Some 0x7f7fffff) 4 /\
+  fconv CF64 0x47effffff0000000 Tf true = FRefused BadValue /\
+  fconv CF64 0xc7effffff0000000 Tf false = FRefused BadValue /\
+  fconv CF64 0x7fefffffffffffff Tf true = FRefused BadValue /\
+  fconv CF64 0x7ff0000000000000 Tf true = FOk CF32 (Some 0x7f800000) 4 /\
+  fconv CF64 0x7ff8000000000000 Tf true = FOk CF32 None 4.
+Proof. repeat split; vm_compute; reflexivity. Qed.
+(* ties to even at 24 bits (1 + 2^-24 -> 1, 1 + 3*2^-24 -> 1 + 2^-22), gradual underflow
+   (2^-149 -> smallest subnormal, 2^-150 -> tie to 0, just above -> 2^-149), exact widening *)
+Example C07_ex_narrow_rounding :
+  fconv CF64 0x3ff0000010000000 Tf true = FOk CF32 (Some 0x3f800000) 4 /\
+  fconv CF64 0x3ff0000030000000 Tf true = FOk CF32 (Some 0x3f800002) 4 /\
+  fconv CF64 0x3ff0000010000001 Tf true = FOk CF32 (Some 0x3f800001) 4 /\
+  fconv CF64 0x36a0000000000000 Tf true = FOk CF32 (Some 1) 4 /\
+  fconv CF64 0x3690000000000000 Tf true = FOk CF32 (Some 0) 4 /\
+  fconv CF64 0x3690000000000001 Tf true = FOk CF32 (Some 1) 4 /\
+  fconv CF32 0x3f800001 Td true = FOk CF64 (Some 0x3ff0000020000000) 8 /\
+  fconv CF32 0x00000001 Td true = FOk CF64 (Some 0x36a0000000000000) 8 /\
+  fconv CF64 0x3ff0000000000001 Te false = FQuery 16.
+Proof. repeat split; vm_compute; reflexivity. Qed.
+(* the integer-only form: 2^24+1 -> tie -> even significand 2^23 at exponent 1; 2^24+3 -> 2^23+2;
+   subnormal range: 2^-150 -> tie to 0, 3 * 2^-150 -> tie to 2 * 2^-149; and the bits of (float) 16777217 *)
+Example C07_ex_rsig :
+  rsig CF32 16777217 0 = 8388608 /\ rexp CF32 16777217 0 = 1 /\ rsig CF32 16777219 0 = 8388610 /\
+  rsig CF32 1 (-150) = 0 /\ rsig CF32 3 (-150) = 2 /\ rexp CF32 3 (-150) = -149 /\
+  fdecode CF32 (flt_bits CF32 (round_int 24 16777217)) = FFin false 8388608 1 /\
+  fround CF64 (FFin true 9007199254740993 0) = FFin true 4503599627370496 1.
+Proof. repeat split; vm_compute; reflexivity. Qed.
+(* float -> integer: 1.0 and 1e300 alike *)
+Example C07_ex_float_to_int :
+  fconv CF64 0x3ff0000000000000 Ti true = FRefused BadType /\ fconv CF64 0x7e37e43c8800759c Tx false = FRefused BadType
+  /\ fconv CF32 0x3f800000 Tc true = FRefused BadType.
+Proof. repeat split; reflexivity. Qed.
+(* text -> float.  "1e39" for float: libc parsed 4 characters, ERANGE, +inf: refused; "-1e39": refused;
+   "1e-50": ERANGE but finite (underflow): accepted, 5 characters; "inf": no ERANGE: accepted;
+   "abc": nothing parsed: BadType; "  ": nothing parsed, white space: 0 *)
+Example C07_ex_text_float :
+  convert_number (Some [49;101;51;57]) Tf true (mkOracle 4 true FcPosInf) = TRefused BadValue /\
+  convert_number (Some [45;49;101;51;57]) Tf false (mkOracle 5 true FcNegInf) = TRefused BadValue /\
+  tobserve (Some CF32) true (convert_number (Some [49;101;45;53;48]) Tf true (mkOracle 5 true FcFinite)) = TOFlt 5 /\
+  tobserve (Some CF64) true (convert_number (Some [105;110;102]) Td true (mkOracle 3 false FcPosInf)) = TOFlt 3 /\
+  convert_number (Some [97;98;99]) Td true (mkOracle 0 false FcFinite) = TRefused BadType /\
+  convert_number (Some [32;32]) Te true (mkOracle 0 false FcFinite) = TEmpty /\
+  tobserve (Some CF64) true (convert_string (Some [32;49;46;53;120]) Td true (mkOracle 4 false FcFinite)) = TOFlt 4.
 Proof. repeat split; vm_compute; reflexivity. Qed.
 (* the known finding is visible in the model: white space only, 2 characters "consumed", nothing stored *)
 Example C07_ex_known_finding :
-  tobserve (Some CI32) true (convert_string (Some [32;32]) Ti true (mkOracle 0 false)) = TOUntouched 2.
+  tobserve (Some CI32) true (convert_string (Some [32;32]) Ti true (mkOracle 0 false FcFinite)) = TOUntouched 2.
 Proof. vm_compute. reflexivity. Qed.
 
 Print Assumptions C07_int_int_exact_or_refused.
@@ -161,3 +454,26 @@ Print Assumptions C07_convert_string_exact.
 Print Assumptions C07_int_float_exact_when_representable.
 Print Assumptions C07_int_float_correctly_rounded.
 Print Assumptions C07_int_float_stays_finite.
+Print Assumptions C07_float_round_is_IEEE_nearest_even.
+Print Assumptions C07_float_round_unfolded.
+Print Assumptions C07_float_round_nearest_even_Z.
+Print Assumptions C07_float_float_rounded_or_refused.
+Print Assumptions C07_float_float_destination.
+Print Assumptions C07_float_float_exact_when_representable.
+Print Assumptions C07_float_widening_exact.
+Print Assumptions C07_float_bits_roundtrip.
+Print Assumptions C07_float_int_never_offered.
+Print Assumptions C07_float_never_faults.
+Print Assumptions C07_int_float_always_accepted.
+Print Assumptions C07_int_float_source_is_converted.
+Print Assumptions C07_value_convert_float_source_is_converted.
+Print Assumptions C07_iterator_consume_float_source_is_converted.
+Print Assumptions C07_int_float_is_IEEE_nearest_even.
+Print Assumptions C07_int_float_destination.
+Print Assumptions C07_text_float_cases.
+Print Assumptions C07_text_float_accepts.
+Print Assumptions C07_text_float_string_accepts.
+Print Assumptions C07_text_float_overflow_refused.
+Print Assumptions C07_text_float_string_overflow_refused.
+Print Assumptions C07_text_float_badvalue_only_overflow.
+Print Assumptions C07_text_float_query_same.
